@@ -1184,6 +1184,8 @@ type oracle struct {
 	// collapse: the exchange id is not visible in the messages (end-to-end tier: no fragment on the
 	// wire); compare per verifier kind
 	collapse bool
+	// old: ids of exchanges that went through a configuration this one has replaced
+	old map[int]bool
 }
 
 func newOracle(n *node) (*oracle, bool) {
@@ -1310,6 +1312,8 @@ func (o *oracle) check(msgs []string) (fail, sig string) {
 			return "failure lost: " + what, "c13:lost"
 		case o.api[k.id]:
 			return "API request counted: " + what, "c13:api-counted"
+		case o.old[k.id] && e == 0:
+			return "failure recorded in a configuration that has since been replaced is still reported: " + what, "c13:stale-after-reconfigure"
 		case k.id >= 0 && o.epoch[k.id] < o.resets && e == 0:
 			return "failure from before the last reset still reported: " + what, "c13:stale-after-reset"
 		case k.tag == "ping" && o.resets > 0:
@@ -1387,6 +1391,15 @@ func (e *ex) Do(op string) core.Result {
 		}
 		if e.im == nil || e.im.w == nil || e.im.w != im.w {
 			e.Close()
+		}
+		or.old = map[int]bool{}
+		if e.or != nil {
+			for id := range e.or.old {
+				or.old[id] = true
+			}
+			for id := range e.or.epoch {
+				or.old[id] = true
+			}
 		}
 		e.im, e.or = im, or
 		e.or.collapse = im.w != nil
